@@ -504,7 +504,12 @@ class DFlags(Plugin):
                     if name in ("explicit_bzero", "bzero"):
                         zero = True
                     pl = s.write(pl, args[pa], n, zero, eng, facts, inst=dict(call[4], _fn=call[5].fn.name))
-                    if name in ("fgets", "asctime_r", "ctime_r", "strerror_r", "snprintf", "vsnprintf", "vswprintf", "swprintf", "strcpy", "strncat", "strcat"):
+                    if name in ("vswprintf", "swprintf"):
+                        # C11 7.29.2.3/7: a negative value is returned when n or more wide characters were requested -- nothing is promised
+                        # about the array then (glibc leaves it without a terminator); only a non-negative result means a terminated string
+                        done = pl[:3] + (True,) + pl[4:]
+                        return [(done, [(lambda r: conv_success_term("neg", r), True)]), (pl, [(lambda r: conv_success_term("neg", r), False)])]
+                    if name in ("fgets", "asctime_r", "ctime_r", "strerror_r", "snprintf", "vsnprintf", "strcpy", "strncat", "strcat"):
                         pl = pl[:3] + (True,) + pl[4:]      # libc routines that terminate what they write
             return [(pl, [])]
         return [(pl, [])]
